@@ -1594,6 +1594,58 @@ impl History {
         }
     }
 
+    /// Directed scenario: an MQTT 5 subscriber whose Topic Alias Maximum is smaller than the number of concrete
+    /// filters it holds; messages on all of them, then it unsubscribes / re-subscribes them in a seeded order.
+    pub fn alias_limit_exceeded(&mut self) {
+        crate::watch::set_history(self.replay_json());
+        let max = *self.rng.pick(&[1u16, 1, 2]);
+        self.actors[0].alias_max = max;
+        self.actors[0].persistent = false;
+        self.connect(0, None);
+        self.connect(1, None);
+        self.step(Step::Turn);
+        let mut filters = vec!["a".to_owned(), "b".to_owned(), "a/b".to_owned(), "a/c".to_owned()];
+        for i in (1..filters.len()).rev() {
+            let j = self.rng.below(i as u64 + 1) as usize;
+            filters.swap(i, j);
+        }
+        filters.truncate(max as usize + 1 + self.rng.below(2) as usize);
+        self.corner("more-concrete-filters-than-aliases");
+        for f in filters.clone() {
+            let q = self.rng.below(3) as u8;
+            self.subscribe(0, &[(f, q)], true);
+            self.step(Step::Turn);
+        }
+        for round in 0..3 {
+            for f in filters.clone() {
+                self.publish(1, &f, (round % 3) as u8, false, false, None, true);
+                self.step(Step::Turn);
+            }
+            self.drain(0);
+            self.flush_acks(0, usize::MAX);
+            self.drain(1);
+            self.flush_acks(1, usize::MAX);
+            self.step(Step::Turn);
+            if self.done() {
+                return;
+            }
+            // give one of them up (last subscribed first: that is the one beyond the limit), later take it again
+            let k = if round == 0 { filters.len() - 1 } else { self.rng.below(filters.len() as u64) as usize };
+            let f = filters[k].clone();
+            self.unsubscribe(0, &[f.clone()], true);
+            self.step(Step::Turn);
+            if round == 1 {
+                self.subscribe(0, &[(f, 1)], true);
+                self.step(Step::Turn);
+            } else {
+                filters.remove(k);
+            }
+            if filters.is_empty() {
+                break;
+            }
+        }
+    }
+
     /// Run a whole random history
     pub fn run_random(&mut self) {
         crate::watch::set_history(self.replay_json());
